@@ -488,6 +488,38 @@ fn exec_lock_probe(nflush: usize, nforce: usize) -> Result<(), String> {
     Ok(())
 }
 
+/// An entry that owns a force-flush guard of ITSELF (case `(3 nflush 0 2)`): owner gone, flush guards outstanding, an
+/// outside force-flush guard is dropped.  The entry must be appended (once) and the drop must return.
+#[metrics]
+#[derive(Default)]
+pub struct SelfOwner {
+    log: LogField,
+    #[metrics(ignore)]
+    own: Mutex<Option<ForceFlushGuard>>,
+}
+fn exec_self_owned_probe(nflush: usize) -> Result<(), String> {
+    progress();
+    let sink = Sink::default();
+    let owner = SelfOwner::default().append_on_drop(sink.clone());
+    let fgs: Vec<FlushGuard> = (0..nflush.max(1)).map(|_| owner.flush_guard()).collect();
+    let outside = owner.force_flush_guard();
+    *owner.own.lock().unwrap() = Some(owner.force_flush_guard());
+    drop(owner);
+    let (tx, rx) = std::sync::mpsc::channel();
+    let s2 = sink.clone();
+    std::thread::spawn(move || {
+        drop(outside);
+        let _ = tx.send(s2.count());
+    });
+    let r = rx.recv_timeout(std::time::Duration::from_millis(1500));
+    drop(fgs);
+    match r {
+        Err(_) => Err("self-owned force-flush guard: the drop of an outside force-flush guard never returned and the entry was never appended (DropAll::drop runs the entry's destructor while holding the guard mutex; the entry's own DropAll, dropped in there, locks it again)".into()),
+        Ok(1) => Ok(()),
+        Ok(n) => Err(format!("self-owned force-flush guard: {n} appends when the outside force-flush guard's drop returned")),
+    }
+}
+
 /// The second lock probe (case `(3 nflush nforce 1)`): while one thread is in the middle of Debug-formatting a flush
 /// guard of the entry into a writer that stalls, another thread drops a force-flush guard (owner gone).  Formatting a
 /// guard must not be able to make a force flush a no-op: when the drop returns the entry must have been appended.
@@ -863,6 +895,7 @@ pub fn exec(case: &Sx) -> (Sx, bool) {
             let prog = dec_prog(case.arg(1));
             (sx::boolean(exec_stress(&setup, &prog, case.arg(2).num() as u64).is_ok()), true)
         }
+        3 if case.arg(2).num() == 2 => (sx::boolean(exec_self_owned_probe(case.arg(0).num() as usize).is_ok()), true),
         3 if case.arg(2).num() == 1 => (sx::boolean(exec_debug_probe(case.arg(0).num() as usize).is_ok()), true),
         3 => (sx::boolean(exec_lock_probe(case.arg(0).num() as usize, case.arg(1).num() as usize).is_ok()), true),
         _ => {
@@ -1290,6 +1323,16 @@ pub fn run(ctx: &Ctx) {
             tout.case(&case, &sx::boolean(r.is_ok()), true);
             tout.count("lock_probe_runs_with_a_formatting_thread");
         }
+    }
+    // an entry owning a force-flush guard of itself (known finding on the code as found: self-deadlock)
+    {
+        let case = sx::tag(3, vec![sx::n(1u8), sx::n(0u8), sx::n(2u8)]);
+        let r = exec_self_owned_probe(1);
+        if let Err(e) = &r {
+            tout.fail(e.clone(), &case);
+        }
+        tout.case(&case, &sx::boolean(r.is_ok()), true);
+        tout.count("self_owned_force_guard_probe");
     }
     // free-running stress, predicate only
     let nstress = if ctx.tier_thorough { 300 } else { 40 };
